@@ -248,11 +248,6 @@ theorem sumsOK_encodeSums (swap : Bool) (hm hs : Bytes) (h1 : DigestOK hm) (h2 :
 
 /-! ### ustar layout -/
 
-/-- consecutive regions from offset `a` to offset `b` -/
-def Contig : Nat → List Region → Nat → Prop
-  | a, [], b => a = b
-  | a, r :: rs, b => r.start = a ∧ Contig (a + r.len) rs b
-
 theorem layoutFrom_contig (i off : Nat) (sizes : List Nat) :
     Contig off (layoutFrom i off sizes) (off + total sizes) := by
   induction sizes generalizing i off with
@@ -316,8 +311,6 @@ theorem classify_eq_some {sizes : List Nat} {p : Nat} {r : Region} (hr : r ∈ l
     simp [hu x hx hxc]
 
 /-! ### truncation -/
-
-def sizesOf (ms : List (Bytes × Bytes)) : List Nat := ms.map (·.2.length)
 
 theorem lastDataEnd_ge (off n : Nat) (ns : List Nat) : off + 512 ≤ lastDataEnd off (n :: ns) := by
   induction ns generalizing off n with
@@ -402,12 +395,6 @@ theorem truncFrom_after_last (off : Nat) (ms : List (Bytes × Bytes)) (cut : Nat
       simp
 
 /-! ### single-byte changes -/
-
-/-- member `i` with byte `k` of its data set to `val` -/
-def setByte (ms : List (Bytes × Bytes)) (i k val : Nat) : List (Bytes × Bytes) :=
-  match ms[i]? with
-  | none => ms
-  | some x => ms.set i (x.1, x.2.set k val)
 
 theorem setByte_cons_succ (x : Bytes × Bytes) (ms : List (Bytes × Bytes)) (i k val : Nat) :
     setByte (x :: ms) (i + 1) k val = x :: setByte ms i k val := by
@@ -581,5 +568,21 @@ theorem flipFrom_data (val i off : Nat) (ms : List (Bytes × Bytes)) (pos : Nat)
       have : j - i = (j - (i + 1)) + 1 := by omega
       rw [this, setByte_cons_succ]
       simp [consM]
+
+theorem cat_setData_other (ms : List Member) (i : Nat) (b' nm : Bytes) (x : Member)
+    (hx : ms[i]? = some x) (hn : x.name ≠ nm) : cat nm (setData ms i b') = cat nm ms := by
+  induction ms generalizing i with
+  | nil => simp at hx
+  | cons y ys ih =>
+    cases i with
+    | zero =>
+      simp at hx; subst hx
+      simp [setData, cat, hn]
+    | succ j =>
+      simp at hx
+      have := ih j hx
+      simp only [setData, hx, List.getElem?_cons_succ, List.set_cons_succ] at this ⊢
+      simp only [cat, List.filter_cons] at this ⊢
+      split <;> simp_all
 
 end CV.Tar
